@@ -107,11 +107,11 @@ func (r *suffixedReader) ReadByte() (b byte, err error) {
 			panic("wsflate: internal error: incorrect use of suffixedReader")
 		}
 		b, err = br.ReadByte()
-		if err == io.EOF {
-			err = nil
-			r.r = nil
+		if err != io.EOF {
+			return b, err
 		}
-		return b, err
+		// No byte was read: go on with the suffix.
+		r.r = nil
 	}
 	if r.pos >= len(r.suffix) {
 		return 0, io.EOF
